@@ -3,7 +3,9 @@
 From Coq Require Import Bool List String.
 From PySMT.gen Require Import Logics.
 From PySMT.models Require Import LogicSelect.
-From PySMT.proofs Require Import Logics_proofs LogicSelect_proofs C13_select_proofs.
+From PySMT.core Require Import Syntax.
+From PySMT.models Require Import Oracles TheoryOracle.
+From PySMT.proofs Require Import Logics_proofs LogicSelect_proofs C13_select_proofs TheoryOracle_proofs.
 
 (* `Theory.__le__` (as translated from the source on this run) is a partial order on
    well-formed theories (ID -> IA, RD -> RA, arrays_const -> arrays; all 1728 of them). *)
@@ -52,6 +54,35 @@ Theorem C13_most_generic_sound : forall S r, most_generic S = SelOk r ->
   In r S /\ forall x, In x S -> l_le x r = true.
 Proof. exact most_generic_sound. Qed.
 
+(* DETECTION.  [theory_of] = hand model of TheoryOracle over the generated Theory operations;
+   [features] = what the formula uses, stated independently: sorts of symbols, constants, bound
+   variables, applied functions' results and array values (with component sorts), integer-valued
+   string/bit-vector operators, int.to.str, to_real, uninterpreted applications, constant arrays,
+   non-linear products / powers / divisions.  For every term: *)
+Theorem C13_detect_covers : forall t th, theory_of t = Some th ->
+  f_le (features t) (of_theory th) = true.
+Proof. exact detect_covers. Qed.
+Theorem C13_detect_covers_flags : forall t th, theory_of t = Some th ->
+  let f := features t in
+  (f_arr f = true -> arrays th = true) /\ (f_arrc f = true -> arrays_const th = true) /\
+  (f_bv f = true -> bit_vectors th = true) /\ (f_ia f = true -> integer_arithmetic th = true) /\
+  (f_ra f = true -> real_arithmetic th = true) /\ (f_uf f = true -> uninterpreted th = true) /\
+  (f_ct f = true -> custom_type th = true) /\ (f_str f = true -> strings th = true) /\
+  (f_nl f = true -> linear th = false).
+Proof. exact detect_covers_flags. Qed.
+(* detected theories are well-formed, so the order theorems above apply to them *)
+Theorem C13_detected_wf : forall t th, theory_of t = Some th -> wf th = true.
+Proof. exact theory_of_wf. Qed.
+(* get_logic: ANY logic above the detected (theory, qf) pair - in particular the one
+   get_closer_pysmt_logic returns, by C13_closer_logic_sound - enables every feature of the
+   formula and is a quantified logic when the formula has a quantifier *)
+Theorem C13_get_logic_covers : forall t th (r : logic), theory_of t = Some th -> lwf r = true ->
+  l_le (mkL "Detected Logic" (is_qf t) th) r = true ->
+  f_le (features t) (of_theory (ltheory r)) = true /\ (lqf r = true -> is_qf t = true).
+Proof. exact get_logic_covers. Qed.
+
+Print Assumptions C13_detect_covers.
+Print Assumptions C13_get_logic_covers.
 Print Assumptions C13_theory_le_trans.
 Print Assumptions C13_theory_le_antisym.
 Print Assumptions C13_combine_upper.
